@@ -13,7 +13,7 @@ From TLV Require Import Base.Ops Base.Tensor Base.RSum Model.Svd Proofs.SvdProof
   Proofs.SvdNNProofs Proofs.SvdSymeigProofs Proofs.SvdRandProofs Proofs.SvdInterfaceProofs
   Proofs.SvdGramProofs Proofs.SvdSymeigFull Proofs.SvdMaskProofs Proofs.SvdDecisions
   Proofs.SvdWitness Proofs.SvdSymeigShapes Proofs.SvdEckartYoung Proofs.SvdRandE2E Proofs.SvdInterfaceAll Proofs.SvdSymeigBest Base.BigSum Model.SvdConj Proofs.SvdConjProofs Model.SvdValidate Proofs.SvdValidateProofs Proofs.SvdUnique Model.SvdComplex
-  Proofs.SvdRandTS Proofs.SvdComplexR Proofs.SvdComplexModel Proofs.SvdDecisions2.
+  Proofs.SvdRandTS Proofs.SvdComplexR Proofs.SvdComplexModel Proofs.SvdDecisions2 Proofs.SvdComplexFlip Proofs.SvdComplexRand.
 Import ListNotations.
 Local Open Scope nat_scope.
 
@@ -1271,3 +1271,132 @@ Print Assumptions C05_interface_cmask_real.
 Theorem C05_final_test_g_real : forall qr A cA G n_iter, final_test_g Rops qr A cA G n_iter = final_test qr A cA G n_iter.
 Proof. exact final_test_g_real. Qed.
 Print Assumptions C05_final_test_g_real.
+
+(* --- COMPLEX svd_flip, LIST LEVEL (Proofs/SvdComplexFlip.v): Model/SvdConj.v svd_flip_conj - the function the complex correspondence executes -
+       instantiated at complex multiplication / conjugation over R, for ANY phase function ph (np.sign) and magnitude comparison lt (argmax of
+       abs): if every computed phase has unit modulus (no deciding entry is zero) then, for both decisions and any numbers of U columns /
+       V rows (padding by ones), Hermitian orthonormality of both factors and the product over any common prefix are kept (FULL under that
+       hypothesis, which is the complex form of the hypothesis of C05_flip_product) --- *)
+Theorem C05_complex_flip_model : forall (ph : CR -> CR) (lt : CR -> CR -> bool) d1 c r d2 (U V : list (list CR)),
+  rect d1 c U -> rect r d2 V -> 1 <= d1 -> forall ub : bool,
+  let sg := if ub then csigns_u c0R ph lt U else csigns_v c0R ph lt V in
+  (forall t, t < length sg -> unit_mod (nth t sg c0R)) ->
+  let '(U2, V2) := flipR ph lt U V ub in
+  (herm_cols d1 c (cre U) (cim U) -> herm_cols d1 c (cre U2) (cim U2)) /\
+  (herm_rows r d2 (cre V) (cim V) -> herm_rows r d2 (cre V2) (cim V2)) /\
+  (forall p (s : nat -> R) i j, p <= Nat.min c r -> i < d1 -> j < d2 ->
+     cprod_re p (cre U2) (cim U2) (cre V2) (cim V2) s i j = cprod_re p (cre U) (cim U) (cre V) (cim V) s i j /\
+     cprod_im p (cre U2) (cim U2) (cre V2) (cim V2) s i j = cprod_im p (cre U) (cim U) (cre V) (cim V) s i j).
+Proof. exact complex_flip_model. Qed.
+Print Assumptions C05_complex_flip_model.
+
+Example C05_complex_flip_hyp_satisfiable :
+  let sg := csigns_u c0R (fun z : CR => z) (fun _ _ => false) [[(0%R, 1%R)]] in
+  forall t, t < length sg -> unit_mod (nth t sg c0R).
+Proof. exact complex_flip_hyp_witness. Qed.
+
+(* --- END TO END over C (FULL under the unit-phase hypothesis): svd_interface(method = truncated_svd) of the model on a complex matrix, any flip
+       setting, 1 <= n_eigenvecs <= min(shape), LAPACK's answer meeting the complex SVD contract on the very matrix handed to the interface: the
+       returned S is the prefix of LAPACK's (real, >= 0, non-increasing), both factors are Hermitian-orthonormal, the squared error is the sum of
+       the discarded squared singular values and no complex matrix of rank <= n_eigenvecs is closer.  svd_interface_flip with the real flip IS
+       svd_interface (C05_interface_flip_real). --- *)
+Theorem C05_complex_interface_truncated_e2e : forall (ph : CR -> CR) (lt : CR -> CR -> bool) (oracle : bool -> triple CR)
+    (funs : fname -> nat -> list (list CR) -> triple CR) d1 d2 (Ml : list (list CR)) r (flip ub : bool) U S V,
+  (forall f, csvd_contract d1 d2 (cre Ml) (cim Ml) f (oracle f)) ->
+  funs FTruncated 0 Ml = truncated_svd oracle d1 d2 (Some r) -> 1 <= r <= Nat.min d1 d2 ->
+  (flip = true ->
+   let t0 := truncated_svd oracle d1 d2 (Some r) in
+   let sg := if ub then csigns_u c0R ph lt (fst (fst t0)) else csigns_v c0R ph lt (snd t0) in
+   forall t, t < length sg -> unit_mod (nth t sg c0R)) ->
+  svd_interface_flip (flipR ph lt) funs MTruncated Ml flip ub = Ok (U, S, V) ->
+  let So := snd (fst (oracle false)) in
+  let Er := fun i j => (cre Ml i j - cprod_re r (cre U) (cim U) (cre V) (cim V) (sre S) i j)%R in
+  let Ei := fun i j => (cim Ml i j - cprod_im r (cre U) (cim U) (cre V) (cim V) (sre S) i j)%R in
+  S = firstn r So /\
+  (forall t, t < r -> snd (nth t S (0%R, 0%R)) = 0%R /\ (0 <= sre S t)%R) /\
+  (forall i j, i <= j -> j < r -> (sre S j <= sre S i)%R) /\
+  herm_cols d1 r (cre U) (cim U) /\ herm_rows r d2 (cre V) (cim V) /\
+  cfrob2 d1 d2 Er Ei = rsum (Nat.min d1 d2 - r) (fun t => ((sre So (r + t)%nat)^2)%R) /\
+  (forall Br Bi, crank_le d1 d2 r Br Bi ->
+     (cfrob2 d1 d2 Er Ei <= cfrob2 d1 d2 (fun i j => (cre Ml i j - Br i j)%R) (fun i j => (cim Ml i j - Bi i j)%R))%R).
+Proof. exact complex_interface_truncated_e2e. Qed.
+Print Assumptions C05_complex_interface_truncated_e2e.
+
+(* the unit-phase hypothesis DERIVED from the orthonormality of the deciding vectors when ph is np.sign on complex numbers (sign_like: unit modulus
+   for every non-zero argument) and lt the magnitude comparison behind argmax(abs(.)) (abs_lt): a vector of norm 1 has a non-zero entry and the
+   deciding entry has the largest magnitude (FULL) - and with it the end-to-end statement over C without any hypothesis on the phases *)
+Theorem C05_complex_signs_unit : forall (ph : CR -> CR) (lt : CR -> CR -> bool), sign_like ph -> abs_lt lt ->
+  (forall d1 c (U : list (list CR)), rect d1 c U -> 1 <= d1 -> herm_cols d1 c (cre U) (cim U) ->
+     let sg := csigns_u c0R ph lt U in forall t, t < length sg -> unit_mod (nth t sg c0R)) /\
+  (forall r d2 (V : list (list CR)), rect r d2 V -> herm_rows r d2 (cre V) (cim V) ->
+     let sg := csigns_v c0R ph lt V in forall t, t < length sg -> unit_mod (nth t sg c0R)).
+Proof. intros ph lt PH LT. split; [exact (signs_u_unit ph lt PH LT) | exact (signs_v_unit ph lt PH LT)]. Qed.
+Print Assumptions C05_complex_signs_unit.
+
+Theorem C05_complex_interface_truncated_e2e_sign : forall (ph : CR -> CR) (lt : CR -> CR -> bool) (oracle : bool -> triple CR)
+    (funs : fname -> nat -> list (list CR) -> triple CR) d1 d2 (Ml : list (list CR)) r (flip ub : bool) U S V,
+  sign_like ph -> abs_lt lt ->
+  (forall f, csvd_contract d1 d2 (cre Ml) (cim Ml) f (oracle f)) ->
+  funs FTruncated 0 Ml = truncated_svd oracle d1 d2 (Some r) -> 1 <= r <= Nat.min d1 d2 ->
+  svd_interface_flip (flipR ph lt) funs MTruncated Ml flip ub = Ok (U, S, V) ->
+  let So := snd (fst (oracle false)) in
+  let Er := fun i j => (cre Ml i j - cprod_re r (cre U) (cim U) (cre V) (cim V) (sre S) i j)%R in
+  let Ei := fun i j => (cim Ml i j - cprod_im r (cre U) (cim U) (cre V) (cim V) (sre S) i j)%R in
+  S = firstn r So /\
+  (forall t, t < r -> snd (nth t S (0%R, 0%R)) = 0%R /\ (0 <= sre S t)%R) /\
+  (forall i j, i <= j -> j < r -> (sre S j <= sre S i)%R) /\
+  herm_cols d1 r (cre U) (cim U) /\ herm_rows r d2 (cre V) (cim V) /\
+  cfrob2 d1 d2 Er Ei = rsum (Nat.min d1 d2 - r) (fun t => ((sre So (r + t)%nat)^2)%R) /\
+  (forall Br Bi, crank_le d1 d2 r Br Bi ->
+     (cfrob2 d1 d2 Er Ei <= cfrob2 d1 d2 (fun i j => (cre Ml i j - Br i j)%R) (fun i j => (cim Ml i j - Bi i j)%R))%R).
+Proof. exact complex_interface_truncated_e2e_sign. Qed.
+Print Assumptions C05_complex_interface_truncated_e2e_sign.
+
+Example C05_sign_like_abs_lt_satisfiable :
+  sign_like (fun z => ((fst z / sqrt (norm2 z))%R, (snd z / sqrt (norm2 z))%R)) /\
+  abs_lt (fun a b => if Rlt_dec (norm2 a) (norm2 b) then true else false).
+Proof. exact sign_like_abs_lt_witness. Qed.
+
+(* --- randomized_svd over C, the lifting step U' = Q @ U at function level (PARTIAL exactly as over R: `M = Q B`, i.e. Q covers the range of M with
+       B = Q^H M, is a hypothesis): if Q has Hermitian-orthonormal columns and the reduced matrix B has the complex SVD U diag(s) V, then (Q U, s, V)
+       is a complex SVD of M; hence the error identity of every truncation, best approximation among the complex matrices of rank <= k, and s = the
+       singular values of EVERY complex SVD of M.  Transported from C05_randomized_lift_partial through the real embedding; not tied to the
+       list-level randomized_svd_conj beyond the correspondence. --- *)
+Theorem C05_complex_randomized_lift_partial : forall m n c p (Mr Mi Qr Qi Br Bi Ur Ui Vr Vi : nat -> nat -> R) (s : nat -> R),
+  herm_cols m c Qr Qi ->
+  (forall i j, i < m -> j < n -> Mr i j = cprod_re c Qr Qi Br Bi (fun _ => 1%R) i j) ->
+  (forall i j, i < m -> j < n -> Mi i j = cprod_im c Qr Qi Br Bi (fun _ => 1%R) i j) ->
+  herm_cols c p Ur Ui -> herm_rows p n Vr Vi ->
+  (forall a j, a < c -> j < n -> Br a j = cprod_re p Ur Ui Vr Vi s a j) ->
+  (forall a j, a < c -> j < n -> Bi a j = cprod_im p Ur Ui Vr Vi s a j) ->
+  herm_cols m p (QUr c Qr Qi Ur Ui) (QUi c Qr Qi Ur Ui) /\
+  (forall i j, i < m -> j < n ->
+     Mr i j = cprod_re p (QUr c Qr Qi Ur Ui) (QUi c Qr Qi Ur Ui) Vr Vi s i j /\
+     Mi i j = cprod_im p (QUr c Qr Qi Ur Ui) (QUi c Qr Qi Ur Ui) Vr Vi s i j).
+Proof. exact complex_randomized_lift. Qed.
+Print Assumptions C05_complex_randomized_lift_partial.
+
+Theorem C05_complex_randomized_lift_best_partial : forall m n c p (Mr Mi Qr Qi Br Bi Ur Ui Vr Vi : nat -> nat -> R) (s : nat -> R),
+  herm_cols m c Qr Qi ->
+  (forall i j, i < m -> j < n -> Mr i j = cprod_re c Qr Qi Br Bi (fun _ => 1%R) i j) ->
+  (forall i j, i < m -> j < n -> Mi i j = cprod_im c Qr Qi Br Bi (fun _ => 1%R) i j) ->
+  herm_cols c p Ur Ui -> herm_rows p n Vr Vi ->
+  (forall a j, a < c -> j < n -> Br a j = cprod_re p Ur Ui Vr Vi s a j) ->
+  (forall a j, a < c -> j < n -> Bi a j = cprod_im p Ur Ui Vr Vi s a j) ->
+  (forall t, t < p -> (0 <= s t)%R) -> (forall i j, i <= j -> j < p -> (s j <= s i)%R) ->
+  forall k, k <= p ->
+  let Wr := QUr c Qr Qi Ur Ui in let Wi := QUi c Qr Qi Ur Ui in
+  cfrob2 m n (fun i j => (Mr i j - cprod_re k Wr Wi Vr Vi s i j)%R) (fun i j => (Mi i j - cprod_im k Wr Wi Vr Vi s i j)%R)
+  = rsum (p - k) (fun t => ((s (k + t)%nat)^2)%R) /\
+  (forall Xr Xi Yr Yi Cr Ci : nat -> nat -> R,
+     (forall i j, i < m -> j < n -> Cr i j = cprod_re k Xr Xi Yr Yi (fun _ => 1%R) i j) ->
+     (forall i j, i < m -> j < n -> Ci i j = cprod_im k Xr Xi Yr Yi (fun _ => 1%R) i j) ->
+     (rsum (p - k) (fun t => ((s (k + t)%nat)^2)%R) <= cfrob2 m n (fun i j => (Mr i j - Cr i j)%R) (fun i j => (Mi i j - Ci i j)%R))%R) /\
+  (forall (Ur' Ui' Vr' Vi' : nat -> nat -> R) (s' : nat -> R),
+     herm_cols m p Ur' Ui' -> herm_rows p n Vr' Vi' ->
+     (forall t, t < p -> (0 <= s' t)%R) -> (forall i j, i <= j -> j < p -> (s' j <= s' i)%R) ->
+     (forall i j, i < m -> j < n -> Mr i j = cprod_re p Ur' Ui' Vr' Vi' s' i j) ->
+     (forall i j, i < m -> j < n -> Mi i j = cprod_im p Ur' Ui' Vr' Vi' s' i j) ->
+     forall t, t < p -> s t = s' t).
+Proof. exact complex_randomized_lift_best. Qed.
+Print Assumptions C05_complex_randomized_lift_best_partial.
